@@ -1,5 +1,7 @@
 //! Suite registry: one module per correspondence suite; `lookup` maps a suite name to its runner.
 pub mod bankops;
+pub mod cfgsim;
+pub mod config;
 pub mod curve;
 pub mod oracle;
 pub mod panic;
@@ -16,6 +18,8 @@ pub fn lookup(name: &str) -> Option<fn(&str) -> String> {
         "oracle" => oracle::run,
         "oraclerisk" => oracle::run_risk,
         "oracleliq" => oracle::run_liq,
+        "config" => config::run,
+        "cfgsim" => cfgsim::run,
         _ => return None,
     })
 }
